@@ -22,10 +22,14 @@ def plan(pid, tier, seed):
         runs.append(("storage_mc", lambda: engines.storage_mc(tier, seed)))
     if pid in ("C01", "C08", "C09", "C12"):
         runs.append(("tour", lambda: engines.tour(tier, seed)))
+    if pid in ("C12", "C10"):
+        runs.append(("capacity", lambda: engines.capacity(tier, seed)))
     if pid in ("C03",):
         runs.append(("drive-release", lambda: engines.drive(tier, seed, release=True)))
     if pid in ("C01", "C08", "C09", "C10", "C07"):
         runs.append(("boundary", lambda: engines.boundary(tier, seed)))
+    if pid in ("C08", "C10", "C09"):
+        runs.append(("boundary-release", lambda: engines.boundary(tier, seed, release=True)))
     if pid in ("C08", "C10"):
         runs.append(("boundary-wrapping", lambda: engines.boundary(tier, seed, features=("wrapping_version",))))
     if pid in ("C05",):
@@ -99,6 +103,9 @@ def run_check(pid, tier, seed):
             if "TOOL" in v["tags"]:
                 tool.append(v)
             elif pid in v["tags"]:
+                mine.append(v)
+            elif pid == "C19" and r.get("cfg", "dbg") != "dbg":
+                # "all other properties hold unchanged in every feature combination and profile"
                 mine.append(v)
     if tool:
         raise ToolError("harness/trace inconsistency: %s" % json.dumps(tool[:3])[:1500])
